@@ -362,7 +362,7 @@ class Check:
                 if late < teff - 0.1:
                     sc['eof'] = {'1': late}
             scripts[tid] = sc
-        run = {'j': rng.choice([1, 2, 4]), 'verbose': rng.random() < 0.25, 'errorlogs': rng.random() < 0.2, 'nosplit': False,
+        run = {'j': rng.choice([1, 2, 4]), 'verbose': rng.random() < 0.25, 'errorlogs': rng.random() < 0.2, 'nosplit': rng.random() < 0.3,
                'scripts': scripts,
                'sim': {'tie_seed': rng.randrange(1 << 30), 'tie_random': rng.random() < 0.7, 'batch': rng.random() < 0.3,
                        'eager': rng.random() < 0.3, 'coalesce': rng.random() < 0.4, 'rand_seed': 1}}
